@@ -84,4 +84,24 @@ pub fn run(cx: &mut Ctx) {
             cb(&|| format!("limit_denominator({}/{}, {})", n, d, m), if ok { Ok(()) } else { Err(format!("got {}/{}, the closest fraction with denominator <= {} (ties to the smaller denominator, as Python) is {}/{}", g.0, g.1, m, want.0, want.1)) });
         } } }
     });
+    cx.check("phase_limit_denominator_canonical", |cb| {
+        // the METHOD on Phase (the check above exercises the free function): the result is again a canonical phase in (-1, 1], it is the
+        // class mod 2 of the free function's answer, its denominator respects the bound, and a phase within the bound is returned unchanged
+        for d in 1..=40i64 { for n in -2 * d..=2 * d { for m in 2..=12i64 {   // the bound must exceed 1 (documented panic otherwise)
+            let p = Phase::new(Rational64::new(n, d));
+            let got = match guard(|| p.limit_denominator(m)) { Ok(g) => g, Err(e) => { cb(&|| format!("Phase({}/{}).limit_denominator({})", n, d, m), Err(e)); continue; } };
+            let (gn, gd) = pr(got);
+            let (pn, pd) = pr(p);
+            let free = quizx::phase::utils::limit_denominator(Rational64::new(pn as i64, pd as i64), m);
+            let want = canon(*free.numer() as i128, *free.denom() as i128);
+            let res = if !(gd > 0 && -gd < gn && gn <= gd) { Err(format!("representative {}/{} is outside (-1, 1]", gn, gd)) }
+                else if gcd(gn, gd).max(1) != 1 { Err(format!("representative {}/{} is not reduced", gn, gd)) }
+                else if gd > m as i128 { Err(format!("denominator {} exceeds the bound {}", gd, m)) }
+                else if (gn, gd) != want { Err(format!("got {}/{}, the class of the closest fraction is {}/{}", gn, gd, want.0, want.1)) }
+                else if pd <= m as i128 && (gn, gd) != (pn, pd) { Err(format!("a phase within the bound was changed to {}/{}", gn, gd)) }
+                else if got != Phase::new(Rational64::new(gn as i64, gd as i64)) { Err("the result differs from the phase rebuilt from its own rational".to_string()) }
+                else { Ok(()) };
+            cb(&|| format!("Phase({}/{}).limit_denominator({})", n, d, m), res);
+        } } }
+    });
 }
